@@ -574,7 +574,10 @@ func indexLed(p *parser, t *token, left *token) *token {
 
 func negateNud(p *parser, t *token) *token {
 	expr := p.doExpression(130) // higher BP for negation
-	if expr.Symbol == "(int)" || expr.Symbol == "(float64)" {
+	// the sign is folded into the literal text only when the result is still a
+	// literal token.Int understands: a plain decimal that carries no sign yet.
+	// "- -5", "-(-5)", "-0x10" and "-010" are negated at run time instead
+	if (expr.Symbol == "(int)" || expr.Symbol == "(float64)") && (expr.Text == "0" || (expr.Text[0] >= '1' && expr.Text[0] <= '9')) {
 		expr.Text = "-" + expr.Text
 		return expr
 	}
